@@ -92,6 +92,35 @@ Fixpoint flat_ti_fuel (S0 : xshape) (fuel : nat) (U : universe) (c : cid) (acc :
 (** ComplexModelBase.get_flat_type_info(cls) *)
 Definition flat_ti (S0 : xshape) (U : universe) (c : cid) : option (list field) := flat_ti_fuel S0 (S c) U c [].
 
+(** The class statements as Python sees them: the Python base class (an index into the classes
+    defined before) and the class's own data.  What __extends__ becomes is decided by the
+    metaclass (complex.py _get_type_info, 293-322): the base itself when it has members of its
+    own -- or, on the repaired tree, when it extends a class itself --, otherwise no entry is
+    made in the class dict and the attribute is the one inherited from the base, i.e. the
+    base's own __extends__. *)
+Record pycls := mkpy { py_base : option cid; py_ns : text; py_name : text; py_own : list field }.
+
+Definition extends_of (S0 : xshape) (U : universe) (base : option cid) : option cid :=
+  match base with
+  | None => None
+  | Some b =>
+      match get_cls U b with
+      | None => None
+      | Some bcl =>
+          if negb (Nat.eqb (length (c_own bcl)) 0)
+             || (sh_memberless_base S0 && match c_parent bcl with Some _ => true | None => false end)
+          then Some b
+          else c_parent bcl
+      end
+  end.
+Fixpoint derive_from (S0 : xshape) (U : universe) (P : list pycls) : universe :=
+  match P with
+  | [] => U
+  | p :: r => derive_from S0 (U ++ [mkcls (py_ns p) (py_name p) (extends_of S0 U (py_base p)) (py_own p)]) r
+  end.
+(** the universe (classes with their __extends__ links) a list of class statements produces *)
+Definition derive (S0 : xshape) (P : list pycls) : universe := derive_from S0 [] P.
+
 (** cls.Attributes._subclasses: the classes whose __extends__ is [c], in creation order *)
 Fixpoint direct_subs_from (i : nat) (l : list cls) (c : cid) : list cid :=
   match l with
